@@ -49,10 +49,15 @@ theorem tmBegin_frame (l : Led) (cur : Nat) (id : TxId) (t : Nat) (f : Bool) (k 
     (tmBegin l cur id t f).1.getS k = l.getS k := by
   unfold tmBegin; simp; intro hh; subst hh; simp [Key.isTm] at hk
 
-theorem tmBeginInter_frame {l : Led} {cur : Nat} {id : TxId} {t : Nat} {f : Bool} {r : Led × StatusChange}
-    (e : tmBeginInter l cur id t f = .ok r) (k : Key) (hk : k.isTm = false) : r.1.getS k = l.getS k := by
+theorem tmBeginInter_frame {l : Led} {cur : Nat} {id : TxId} {t : Nat} {x : Ext} {f : Bool} {r : Led × StatusChange}
+    (e : tmBeginInter l cur id t x f = .ok r) (k : Key) (hk : k.isTm = false) : r.1.getS k = l.getS k := by
   unfold tmBeginInter at e
   split at e
+  · split at e
+    · cases e
+    · split at e
+      · cases e
+      · cases e; simp; intro hh; subst hh; simp [Key.isTm] at hk
   · cases e
   · cases e; simp; intro hh; subst hh; simp [Key.isTm] at hk
 
@@ -199,14 +204,14 @@ theorem foldl_setDestIC_reqCounter (cids : List TxId) (l : Led) (s d : SvcId) :
     rw [ih, setDestIC_reqCounter _ _ _ _ _ rfl]
 
 /-- `ProcessIBTP` and the request counters: a request advances exactly the counter of its own
-pair by one; a receipt changes no request counter -/
+pair by one; a receipt — and the destination hub's notice, a request by type — changes no request counter -/
 theorem processIBTP_reqCounter (l : Led) (i : Ibtp) (ck : Checked) (c : StatusChange)
     (hic : ck.ic.ic = (getIC l ck.src).ic) (s d : SvcId) :
     reqCounter (processIBTP l i ck c).1 s d =
-      if i.typ.isRequest = true ∧ s = ck.src ∧ d = ck.dst then reqCounter l s d + 1 else reqCounter l s d := by
+      if (i.typ.isRequest && !ck.notice) = true ∧ s = ck.src ∧ d = ck.dst then reqCounter l s d + 1 else reqCounter l s d := by
   unfold processIBTP
   simp only
-  by_cases hreq : i.typ.isRequest = true
+  by_cases hreq : (i.typ.isRequest && !ck.notice) = true
   · simp only [hreq, if_true, true_and]
     unfold reqCounter
     have hk : ∀ x, Key.idxReq { frm := ck.src, to := ck.dst, index := i.index } ≠ Key.ic x := by intro x hh; cases hh
@@ -249,39 +254,42 @@ open Bxh
 theorem checkIBTP_ic {env : Env} {l : Led} {i : Ibtp} {ck : Checked} (h : checkIBTP env l i = .ok ck) :
     ck.ic = getIC l ck.src := by
   unfold checkIBTP at h
-  split at h
-  · cases h
-  · split at h
-    · cases h
-    · simp only at h
-      split at h
-      · split at h
-        · split at h
-          · cases h
-          · split at h
-            · cases h
-            · generalize checkTarget env l _ _ = ct at h
-              obtain ⟨b, t⟩ := ct
-              simp only at h
-              split at h
-              · split at h
-                · cases h
-                · cases h; rfl
-              · cases h; rfl
-        · split at h <;> cases h
-      · split at h
-        · split at h
-          · split at h
-            · cases h
-            · split at h
-              · cases h
-              · cases h; rfl
-          · split at h
-            · cases h
-            · split at h
-              · cases h
-              · cases h; rfl
-        · cases h
+  repeat' (first | (cases h; first | rfl | done) | split at h | simp only at h)
+
+/-- the `notice` flag of a checked IBTP is what `checkTxStatusForSourceBxh` answered -/
+theorem checkIBTP_notice {env : Env} {l : Led} {i : Ibtp} {ck : Checked} (h : checkIBTP env l i = .ok ck) :
+    isNotification l ck.src ck.dst i = some ck.notice := by
+  unfold checkIBTP at h
+  repeat' (first | (cases h <;> first | assumption | simp_all) | split at h | simp only at h)
+
+/-- inside one hub there is no notice -/
+theorem checkIBTP_local_no_notice {env : Env} {l : Led} {i : Ibtp} {ck : Checked} (h : checkIBTP env l i = .ok ck)
+    (hb : ck.src.bxh = ck.dst.bxh) : ck.notice = false := by
+  have := checkIBTP_notice h
+  unfold isNotification at this
+  simp [hb] at this
+  exact this
+
+/-- a notice is a request by type whose `Extra` field names BEGIN_FAILURE / BEGIN_ROLLBACK, between two hubs, for a request
+this hub has processed -/
+theorem checkIBTP_notice_true {env : Env} {l : Led} {i : Ibtp} {ck : Checked} (h : checkIBTP env l i = .ok ck)
+    (hn : ck.notice = true) :
+    ck.src.bxh ≠ ck.dst.bxh ∧ i.typ.isResponse = false ∧ i.ext.isNotice = true ∧
+      (l.getS (.idxReq { frm := ck.src, to := ck.dst, index := i.index })).isSome = true := by
+  have h1 := checkIBTP_notice h
+  rw [hn] at h1
+  unfold isNotification at h1
+  split at h1
+  · cases h1
+  · rename_i hc
+    split at h1
+    · split at h1
+      · cases h1
+      · simp only [Option.some.injEq] at h1
+        simp only [Bool.or_eq_true, beq_iff_eq, not_or] at hc
+        rename_i v hv _
+        exact ⟨hc.1, by simpa using hc.2, h1, by rw [hv]; rfl⟩
+    · cases h1
 
 theorem reqCounter_congr {l l' : Led} (h : ∀ x, l'.getS (.ic x) = l.getS (.ic x)) (s d : SvcId) :
     reqCounter l' s d = reqCounter l s d := by
@@ -292,7 +300,7 @@ own ordered pair by exactly one and leaves every other pair alone; a receipt cha
 theorem handleIBTP_reqCounter {env : Env} {l : Led} {i : Ibtp} {ck : Checked} {r : Led × String}
     (hck : checkIBTP env l i = .ok ck) (h : handleIBTP env l i = .ok r) (s d : SvcId) :
     reqCounter r.1 s d =
-      if i.typ.isRequest = true ∧ s = ck.src ∧ d = ck.dst then reqCounter l s d + 1 else reqCounter l s d := by
+      if (i.typ.isRequest && !ck.notice) = true ∧ s = ck.src ∧ d = ck.dst then reqCounter l s d + 1 else reqCounter l s d := by
   unfold handleIBTP at h
   simp only [hck] at h
   split at h
@@ -303,8 +311,10 @@ theorem handleIBTP_reqCounter {env : Env} {l : Led} {i : Ibtp} {ck : Checked} {r
       split at hr
       · exact beginTransaction_frame hr _ (ic_not_tm x)
       · split at hr
+        · split at hr
+          · cases hr
+          · rename_i y hy; cases hr; exact tmReport_frame hy _ (ic_not_tm x)
         · cases hr
-        · rename_i y hy; cases hr; exact tmReport_frame hy _ (ic_not_tm x)
     have hf2 : ∀ x, (notifySrcDst env l1 ck.src ck.dst c ck.isBatch).getS (.ic x) = l.getS (.ic x) := by
       intro x; rw [notifySrcDst_frame _ _ _ _ _ _ _ (ic_not_tm x)]; exact hf1 x
     have hic : ck.ic.ic = (getIC (notifySrcDst env l1 ck.src ck.dst c ck.isBatch) ck.src).ic := by
@@ -337,8 +347,10 @@ theorem handleIBTP_svc_frame {env : Env} {l : Led} {i : Ibtp} {r : Led × String
         split at hr
         · exact beginTransaction_frame hr _ (svc_not_tm c sid)
         · split at hr
+          · split at hr
+            · cases hr
+            · rename_i y hy; cases hr; exact tmReport_frame hy _ (svc_not_tm c sid)
           · cases hr
-          · rename_i y hy; cases hr; exact tmReport_frame hy _ (svc_not_tm c sid)
       have hf2 : (notifySrcDst env l1 ck.src ck.dst cc ck.isBatch).getS (.svc c sid) = l.getS (.svc c sid) := by
         rw [notifySrcDst_frame _ _ _ _ _ _ _ (svc_not_tm c sid)]; exact hf1
       have hp : (processIBTP (notifySrcDst env l1 ck.src ck.dst cc ck.isBatch) i ck cc).1.getS (.svc c sid) = l.getS (.svc c sid) := by
